@@ -70,7 +70,12 @@ def load_known():
     for p in sorted(glob.glob(os.path.join(VERIF, "known_findings.d", "*.json"))):
         with open(p) as f:
             out.extend(json.load(f)["findings"])
-    return out
+    # known_findings.json is the merge of the .d sources (tools/merge_known.py): de-duplicate,
+    # the .d entry (read last) wins
+    dedup = {}
+    for k in out:
+        dedup[(k["property"], k["signature"])] = k
+    return list(dedup.values())
 
 
 def _validate(path):
